@@ -49,7 +49,9 @@ LEVEL_NOTE = 'Trusted: the acceptance model (5 lines); inspect.signature for pro
 REJECT = (ValueError, LookupError)
 APIS = ['bind_str', 'bind_tuple', 'parse_flat', 'block', 'multi', 'hook_str', 'hook_tuple',
         # skip_unknown concerns unknown *configurables* only: what a known one refuses is still an error
-        'parse_skip', 'block_skip']
+        'parse_skip', 'block_skip',
+        # a key of four elements is no key form at all (it is what Gin's parsed keys look like inside)
+        'bind_tuple4']
 
 
 DYN_SRC = ('class Pipeline:\n'
@@ -224,6 +226,8 @@ def check_static(case, prebuilt=None):
     labels.add('decorated-function')
   if shape.get('far_ctor'):
     labels.add('class-with-other-constructor-in-a-base')
+  if shape.get('first_lists') is not None:
+    labels.add('same-object-registered-before-with-other-lists')
   if shape.get('nested_host') and shape['kind'] == 'method':
     labels.add('method-of-a-nested-or-local-class')
   full = built.selector
@@ -290,6 +294,9 @@ def check_static(case, prebuilt=None):
       fn = lambda: gin.bind_parameter(f'{key}.{param}', value)
     elif api == 'bind_tuple':
       fn = lambda: gin.bind_parameter((scope, sp, param), value)
+    elif api == 'bind_tuple4':
+      fn = lambda: gin.bind_parameter((scope, sp, full, param), value)
+      accepted = False
     elif api == 'parse_flat':
       fn = lambda: gin.parse_config(f'{key}.{param} = {value!r}\n')
     elif api == 'block':
@@ -441,6 +448,11 @@ def _static_case(draw):
   if lists != 'none' and pool:
     subset = draw(st.lists(st.sampled_from(pool), unique=True, min_size=1, max_size=4))
     shape['allowlist' if lists == 'allow' else 'denylist'] = subset
+  if (shape['kind'] == 'function' and shape['api'] != 'configurable' and not shape.get('decorated')
+      and named and draw(st.integers(0, 3)) == 0):
+    # registered before under the same name with other lists (which no longer count)
+    other = draw(st.lists(st.sampled_from(named), unique=True, min_size=1, max_size=3))
+    shape['first_lists'] = {draw(st.sampled_from(['allowlist', 'denylist'])): other}
   params = _param_classes(shape)
   prior = []
   for i in range(draw(st.integers(0, 5))):
